@@ -21,11 +21,11 @@ import (
 var c20Ops = []string{"none", "dup-id", "dup-destination", "shadow-id-before", "shadow-id-after", "shadow-all-after", "second-issuer-last", "second-issuer-first", "issuer-after-status",
 	"nested-issuer", "foreign-ns-issuer", "comment-in-issuer", "cdata-in-issuer", "charref-in-issuer", "whitespace-around-issuer", "xml-decl-and-comment", "dup-version", "dup-inresponseto", "issuer-empty-then-real", "trailing-issuer", "pi-in-issuer", "pi-before-issuer-text", "envelope-issuer-differs",
 	"encrypted-issuer-after-issuer", "encrypted-issuer-last", "encrypted-issuer-first", "encrypted-status-last",
-	"nsdecl-id-after", "nsdecl-id-before", "nsdecl-all-after", "second-root-trailing", "second-root-leading", "nsdecl-id-used-in-keyinfo"}
+	"nsdecl-id-after", "nsdecl-id-before", "nsdecl-all-after", "second-root-trailing", "second-root-leading", "nsdecl-id-used-in-keyinfo", "polyglot-directive-stored-block"}
 
 // operators an attacker can apply to a SIGNED envelope as well: namespace declarations for prefixes
 // nobody uses are dropped by exclusive canonicalisation, so the signature still verifies
-var c20SignedSafe = map[string]bool{"nsdecl-id-after": true, "nsdecl-id-before": true, "nsdecl-all-after": true, "second-root-trailing": true, "second-root-leading": true, "nsdecl-id-used-in-keyinfo": true}
+var c20SignedSafe = map[string]bool{"nsdecl-id-after": true, "nsdecl-id-before": true, "nsdecl-all-after": true, "second-root-trailing": true, "second-root-leading": true, "nsdecl-id-used-in-keyinfo": true, "polyglot-directive-stored-block": true}
 
 // the SPs behind the router share one decryption key (anyone can encrypt to its certificate)
 const c20SPKey = 4
@@ -38,7 +38,7 @@ func init() {
 			"oracle: whenever validation under any configured SP accepts, the pre-decode succeeded and reports the same ID, InResponseTo, Destination, Version, Issuer, so the routed-to configuration is the accepting one; distinct = shape hash (kind, placement, layout, envelope ops, presentation, outcomes)",
 		Directed:   c20Directed,
 		Run:        c20Run,
-		MustHit:    []string{"kind=Response", "kind=LogoutResponse", "op=dup-id", "op=shadow-id-after", "op=second-issuer-last", "op=second-issuer-first", "op=nested-issuer", "op=comment-in-issuer", "compressed", "skip_config", "accepted_with_ops", "route_to_B", "op=pi-in-issuer", "issuer_unconfigured", "op=encrypted-issuer-after-issuer", "op=encrypted-issuer-last", "op=nsdecl-id-after", "op=second-root-trailing", "signed_envelope_shaped", "message_of_megabytes_compressed"},
+		MustHit:    []string{"kind=Response", "kind=LogoutResponse", "op=dup-id", "op=shadow-id-after", "op=second-issuer-last", "op=second-issuer-first", "op=nested-issuer", "op=comment-in-issuer", "compressed", "skip_config", "accepted_with_ops", "route_to_B", "op=pi-in-issuer", "issuer_unconfigured", "op=encrypted-issuer-after-issuer", "op=encrypted-issuer-last", "op=nsdecl-id-after", "op=second-root-trailing", "op=polyglot-directive-stored-block", "signed_envelope_shaped", "message_of_megabytes_compressed"},
 		RandomRuns: map[string]int{"quick": 6000, "thorough": 80000},
 	})
 }
@@ -323,6 +323,26 @@ func c20Apply(xml, op string, m *world.LResponse, other string) (string, bool) {
 			return decl + body + evil, true
 		}
 		return decl + evil + body, true
+	case "polyglot-directive-stored-block":
+		// octets that are BOTH a document (TAB, a directive "<!...>" swallowing another message, then the
+		// genuine message) AND a DEFLATE stream (one final stored block, header 09 3c 21 c3 de, holding that other
+		// message): whoever tries "inflate" before "parse" reads another message than whoever parses first
+		if strings.ContainsAny(other, "\"'<>") || strings.HasPrefix(xml, "<?xml") {
+			return xml, false
+		}
+		const blockLen = 0x213c // LEN octets "<!"
+		name := "Response"
+		if m.Kind != "Response" {
+			name = m.Kind
+		}
+		head := `<samlp:` + name + ` xmlns:samlp="` + world.NSProtocol + `" xmlns:saml="` + world.NSAssertion + `" ID="_polyglot" InResponseTo="_poly_irt" Version="2.0" IssueInstant="2001-01-01T00:00:00Z" x="`
+		tail := `"><saml:Issuer>` + otherText + `</saml:Issuer><samlp:Status><samlp:StatusCode Value="` + world.StatusOK + `"/></samlp:Status></samlp:` + name + `>`
+		fill := blockLen - len(head) - len(tail)
+		if fill < 0 {
+			return xml, false
+		}
+		inner := head + strings.Repeat("a", fill) + tail
+		return "\t<!\xc3\xde" + inner + ">" + xml, true
 	case "nsdecl-id-used-in-keyinfo":
 		// the declared prefix IS used, but only inside ds:KeyInfo, which no signature covers (and which the
 		// enveloped-signature transform removes before canonicalisation)
